@@ -143,10 +143,9 @@ inline Number parseNumber(const char* s) {
     uint8_t digit = uint8_t(*s - '0');
     if (mantissa > maxUint / 10)
       break;
-    mantissa *= 10;
-    if (mantissa > maxUint - digit)
+    if (mantissa == maxUint / 10 && digit > maxUint % 10)
       break;
-    mantissa += digit;
+    mantissa = mantissa * 10 + digit;
     s++;
   }
 
